@@ -10,7 +10,10 @@ elab "#audit_ns " ns:ident : command => do
   for (n, ci) in env.constants.toList do
     if pre.isPrefixOf n && !n.isInternal then
       if let .thmInfo _ := ci then
-        names := names.push n
+        -- equation lemmas generated for definitions (`f.eq_1`, `f.eq_def`) are not property theorems
+        let last := match n with | .str _ s => s | _ => ""
+        if !(last.startsWith "eq_") then
+          names := names.push n
   let sorted := names.qsort (fun a b => a.toString < b.toString)
   for n in sorted do
     let axs ← liftCoreM (Lean.collectAxioms n)
